@@ -328,25 +328,356 @@ class RS2D:
 
     def layout(self, c):
         d1, d2, d3, d4 = c["ext"]
-        return layout_json(0, 0, 0, 8, d1, [c["rc"], d4, d3, d2], [0, 1, 2, 3, 4])
+        # file grid C-order (receiver, 4D, 3D, 2D | 1D); the importer reverses all axes: logical (1D, 2D, 3D, 4D, receiver)
+        return layout_json(0, 0, 0, 8, d1, [c["rc"], d4, d3, d2], [4, 3, 2, 1, 0])
 
     def sample(self, c):
         return ("f", 4, True, True)
 
+    def _xml(self, c):
+        def ent(k, v):
+            return ("<entry><key>%s</key><value><name>%s</name><value>%s</value></value></entry>" % (k, k, v))
+        return "<header><params>" + "".join(ent("ACQUISITION_MATRIX_DIMENSION_%dD" % (k + 1), c["ext"][k]) for k in range(4)) + \
+               ent("RECEIVER_COUNT", c["rc"]) + ent("DWELL_TIME", "0.5") + ent("BASE_FREQ_1", "400000000.0") + "</params></header>"
+
     def write(self, c, d, body):
         p = os.path.join(d, "rs2d")
         os.makedirs(p, exist_ok=True)
-        open(os.path.join(p, "data.dat"), "wb").write(bytes(body))
-        def ent(k, v):
-            return ("<entry><key>%s</key><value><name>%s</name><value>%s</value></value></entry>" % (k, k, v))
-        xml = "<header><params>" + "".join(ent("ACQUISITION_MATRIX_DIMENSION_%dD" % (k + 1), c["ext"][k]) for k in range(4)) + \
-              ent("RECEIVER_COUNT", c["rc"]) + ent("DWELL_TIME", "0.5") + ent("BASE_FREQ_1", "400000000.0") + "</params></header>"
-        open(os.path.join(p, "header.xml"), "w").write(xml)
+        with open(os.path.join(p, "data.dat"), "wb") as f:
+            f.write(bytes(body))
+        with open(os.path.join(p, "header.xml"), "w") as f:
+            f.write(self._xml(c))
         return os.path.join(p, "data.dat")
 
     def expect(self, c, raw):
-        v = (raw[..., 0].astype(float) - 1j * raw[..., 1].astype(float)) * 1j
-        return v, None, None
+        # (re - i im) * i = im + i re
+        v = raw[..., 1].astype(float) + 1j * raw[..., 0].astype(float)
+        ext = list(c["ext"]) + [c["rc"]]
+        keep = [k for k in range(5) if ext[k] != 1]
+        scale = [0.5, 1.0, 1.0, 1.0, 1.0]
+        return np.squeeze(v), ["t%d" % k for k in keep], [np.arange(ext[k]) * scale[k] for k in keep]
+
+    def perturbed(self, c, change):
+        c2 = dict(c, ext=list(c["ext"])); c2["ext"][change[0]] += change[1]
+        return c2 if min(c2["ext"]) >= 1 else None
+
+    def rebuild_header(self, c, d, path, change):
+        c2 = self.perturbed(c, change)
+        with open(os.path.join(os.path.dirname(path), "header.xml"), "w") as f:
+            f.write(self._xml(c2))
+        return c2
 
 
-KITS = {k.name: k for k in (Prospa(), VnmrJ(), TopSpin(), TNMR())}
+# =============================================================================== BES3T (Bruker Xepr / Xenon)
+class BES3T:
+    name = "bes3t"
+    fmt = "xepr"
+    FMT = {"D": ("f", 8), "F": ("f", 4), "I": ("i", 4), "S": ("i", 2)}
+
+    def draw(self, rng):
+        rank = rng.randint(1, 3)
+        ext = rng.sample([2, 3, 4, 5, 6], rank) + [1] * (3 - rank)
+        return {"ext": ext, "rank": rank, "cplx": rng.random() < 0.5, "big": rng.random() < 0.6,
+                "fmt": rng.choice(["D", "D", "D", "F", "I"])}
+
+    def layout(self, c):
+        x, y, z = c["ext"]
+        w = self.FMT[c["fmt"]][1]
+        pb = w * (2 if c["cplx"] else 1)
+        # Fortran order (x fastest): file grid C-order (z, y | x); imported (x, y, z)
+        if c["rank"] == 1:
+            return layout_json(0, 0, 0, pb, x, [], [0])
+        if c["rank"] == 2:
+            return layout_json(0, 0, 0, pb, x, [y], [1, 0])
+        return layout_json(0, 0, 0, pb, x, [z, y], [2, 1, 0])
+
+    def sample(self, c):
+        kind, w = self.FMT[c["fmt"]]
+        return (kind, w, c["big"], c["cplx"])
+
+    def _dsc(self, c):
+        src = open(os.path.join(DATA, "bes3t", "1D_CW.DSC")).read().splitlines()
+        x, y, z = c["ext"]
+        rep = {"BSEQ": "BSEQ\t%s" % ("BIG" if c["big"] else "LIT"), "IKKF": "IKKF\t%s" % ("CPLX" if c["cplx"] else "REAL"),
+               "XTYP": "XTYP\tIDX", "YTYP": "YTYP\t%s" % ("IDX" if c["rank"] >= 2 else "NODATA"),
+               "ZTYP": "ZTYP\t%s" % ("IDX" if c["rank"] >= 3 else "NODATA"),
+               "IRFMT": "IRFMT\t%s" % c["fmt"], "XPTS": "XPTS\t%d" % x, "XMIN": "XMIN\t3400.0", "XWID": "XWID\t100.0"}
+        out = []
+        for ln in src:
+            key = ln.split("\t")[0].split(" ")[0]
+            if key in rep:
+                out.append(rep[key])
+                if key == "IRFMT" and c["cplx"]:
+                    out.append("IIFMT\t%s" % c["fmt"])
+                if key == "XWID":
+                    if c["rank"] >= 2:
+                        out += ["YPTS\t%d" % y, "YMIN\t1.0", "YWID\t%d.0" % (y - 1)]
+                    if c["rank"] >= 3:
+                        out += ["ZPTS\t%d" % z, "ZMIN\t10.0", "ZWID\t%d.0" % (2 * (z - 1))]
+            else:
+                out.append(ln)
+        return "\n".join(out) + "\n"
+
+    def write(self, c, d, body):
+        with open(os.path.join(d, "syn.DTA"), "wb") as f:
+            f.write(bytes(body))
+        with open(os.path.join(d, "syn.DSC"), "w") as f:
+            f.write(self._dsc(c))
+        return os.path.join(d, "syn.DSC")
+
+    def data_file(self, path):
+        return path[:-4] + ".DTA"
+
+    def expect(self, c, raw):
+        v = (raw[..., 0].astype(float) + 1j * raw[..., 1].astype(float)) if c["cplx"] else raw.astype(float)
+        x, y, z = c["ext"]
+        v = v.reshape([x, y, z][: c["rank"]])
+        coords = [np.linspace(3400.0, 3500.0, x) / 10]
+        if c["rank"] >= 2:
+            coords.append(np.linspace(1.0, 1.0 + (y - 1), y))
+        if c["rank"] >= 3:
+            coords.append(np.linspace(10.0, 10.0 + 2 * (z - 1), z))
+        return v, ["B0", "t1", "t0"][: c["rank"]], coords
+
+    def perturbed(self, c, change):
+        if change[0] >= c["rank"] or change[0] > 2:
+            return None
+        c2 = dict(c, ext=list(c["ext"])); c2["ext"][change[0]] += change[1]
+        return c2 if min(c2["ext"][: c["rank"]]) >= 2 else None
+
+    def rebuild_header(self, c, d, path, change):
+        c2 = self.perturbed(c, change)
+        with open(path, "w") as f:
+            f.write(self._dsc(c2))
+        return c2
+
+
+# =============================================================================== WinEPR / EMX (par + spc, "DOS Format")
+class WinEPR:
+    name = "winepr"
+    fmt = "winepr"
+
+    def draw(self, rng):
+        rank = rng.randint(1, 2)
+        ext = rng.sample([2, 3, 4, 5, 6, 7], rank) + [1] * (2 - rank)
+        return {"ext": ext, "rank": rank}
+
+    def layout(self, c):
+        x, y = c["ext"]
+        if c["rank"] == 1:
+            return layout_json(0, 0, 0, 4, x, [], [0])
+        return layout_json(0, 0, 0, 4, x, [y], [1, 0])      # Fortran order: x fastest
+
+    def sample(self, c):
+        return ("f", 4, False, False)
+
+    def _par(self, c):
+        x, y = c["ext"]
+        lines = ["DOS  Format", "ANZ %d" % (x * y), "MIN -1.0", "MAX 1.0", "JSS 0"]
+        if c["rank"] == 2:
+            lines += ["SSX %d" % x, "SSY %d" % y, "XXLB 3400.000000", "XXWI 200.000000", "XYLB 15.000000", "XYWI %d.000000" % (y - 1),
+                      "XXUN G", "XYUN dB"]
+        else:
+            lines += ["GST 3400.000000", "GSI 200.000000", "JUN G", "RES %d" % x]
+        lines += ["JSD 4", "HCF 3500.000000", "HSW 200.000000", "RCT 40.96", "RTC 10.24", "RRG 5.6e+003", "RMA 3.0", "MF  9.43",
+                  "MP  2.0e-001", "MPD 30.0", "TE  294.2"]
+        return "\r\n".join(lines) + "\r\n"
+
+    def write(self, c, d, body):
+        with open(os.path.join(d, "syn.spc"), "wb") as f:
+            f.write(bytes(body))
+        with open(os.path.join(d, "syn.par"), "w", newline="") as f:
+            f.write(self._par(c))
+        return os.path.join(d, "syn.par")
+
+    def data_file(self, path):
+        return path[:-4] + ".spc"
+
+    def expect(self, c, raw):
+        x, y = c["ext"]
+        v = raw.astype(float).reshape([x, y][: c["rank"]])
+        coords = [np.linspace(3400.0, 3600.0, x) / 10]
+        if c["rank"] == 2:
+            coords.append(np.linspace(15.0, 15.0 + (y - 1), y))
+        return v, ["B0", "t1"][: c["rank"]], coords
+
+    def perturbed(self, c, change):
+        if change[0] >= c["rank"]:
+            return None
+        c2 = dict(c, ext=list(c["ext"])); c2["ext"][change[0]] += change[1]
+        return c2 if min(c2["ext"][: c["rank"]]) >= 2 else None
+
+    def rebuild_header(self, c, d, path, change):
+        c2 = self.perturbed(c, change)
+        with open(path, "w", newline="") as f:
+            f.write(self._par(c2))
+        return c2
+
+
+# =============================================================================== SpecMan4EPR (.exp + .d01)
+class SpecMan:
+    name = "specman"
+    fmt = "specman"
+
+    def draw(self, rng):
+        rank = rng.randint(1, 4)
+        ext = rng.sample([2, 3, 4, 5, 6], rank) + [1] * (4 - rank)
+        return {"ext": ext, "rank": rank, "nv": rng.choice([1, 2, 2, 3]), "subdir": rng.choice(["run", "experiments"])}
+
+    def layout(self, c):
+        s1, s2, s3, s4 = c["ext"]
+        nv = c["nv"]
+        hdr = 4 * (2 + 6 * nv)
+        # the stream is read C-order as (variable, …, s1) and then first and last axis are swapped
+        if c["rank"] == 1:
+            return layout_json(hdr, 0, 0, 4, s1, [nv], [1, 0])
+        if c["rank"] == 2:
+            return layout_json(hdr, 0, 0, 4, s1, [nv, s2], [2, 1, 0])
+        if c["rank"] == 3:
+            return layout_json(hdr, 0, 0, 4, s1, [nv, s3, s2], [3, 1, 2, 0])
+        return layout_json(hdr, 0, 0, 4, s1, [nv, s2, s3, s4], [4, 1, 2, 3, 0])
+
+    def sample(self, c):
+        return ("f", 4, False, False)
+
+    def header_bytes(self, c):
+        total = 1
+        for e in c["ext"]:
+            total *= e
+        words = [c["nv"], 1]
+        for _ in range(c["nv"]):
+            words += [c["rank"]] + list(c["ext"]) + [total]
+        return struct.pack("<%dI" % len(words), *words)
+
+    def write(self, c, d, body):
+        sub = os.path.join(d, c["subdir"])
+        os.makedirs(sub, exist_ok=True)
+        hb = self.header_bytes(c)
+        with open(os.path.join(sub, "syn.d01"), "wb") as f:
+            f.write(hb + bytes(body[len(hb):]))
+        shutil.copy(os.path.join(DATA, "specman", "Nitroxide_Q_Band.exp"), os.path.join(sub, "syn.exp"))
+        return os.path.join(sub, "syn.exp")
+
+    def data_file(self, path):
+        return path[:-4] + ".d01"
+
+    def expect(self, c, raw):
+        v = raw.astype(float)
+        return v, ["x0", "x1", "x2", "x3", "x4"][: c["rank"] + 1], [np.arange(0.0, n) for n in v.shape]
+
+    def perturbed(self, c, change):
+        if change[0] >= c["rank"]:
+            return None
+        c2 = dict(c, ext=list(c["ext"])); c2["ext"][change[0]] += change[1]
+        return c2 if min(c2["ext"][: c["rank"]]) >= 2 else None
+
+    def rebuild_header(self, c, d, path, change):
+        c2 = self.perturbed(c, change)
+        df = self.data_file(path)
+        body = open(df, "rb").read()
+        hb_old = self.header_bytes(c)
+        # the per-variable totals stay (they are not read): only the extents change
+        words = [c2["nv"], 1]
+        total = 1
+        for e in c["ext"]:
+            total *= e
+        for _ in range(c2["nv"]):
+            words += [c2["rank"]] + list(c2["ext"]) + [total]
+        with open(df, "wb") as f:
+            f.write(struct.pack("<%dI" % len(words), *words) + body[len(hb_old):])
+        return c2
+
+
+# =============================================================================== JEOL Delta (.jdf)
+class Delta:
+    name = "delta"
+    fmt = "delta"
+    DATA_START = 16384
+
+    def draw(self, rng):
+        rank = rng.randint(1, 2)
+        if rank == 1:
+            n = rng.choice([8, 16, 24])
+            cplx = rng.random() < 0.7
+            lo = rng.choice([0, 0, 2]); hi = n - 1 - rng.choice([0, 0, 3])
+            return {"rank": 1, "pts": [n, 1], "cplx": cplx, "lo": [lo, 0], "hi": [hi, 0], "endian": rng.choice([0, 1])}
+        x, y = 4 * rng.randint(1, 3), 4 * rng.randint(1, 3)
+        while x == y:
+            y = 4 * rng.randint(1, 3)
+        lo = [rng.choice([0, 1]), 0]; hi = [x - 1 - rng.choice([0, 2]), y - 1 - rng.choice([0, 1])]
+        return {"rank": 2, "pts": [x, y], "cplx": True, "lo": lo, "hi": hi, "endian": rng.choice([0, 1])}
+
+    def layout(self, c):
+        if c["rank"] == 1:
+            n = c["pts"][0]
+            if c["cplx"]:      # a section of real parts, then a section of imaginary parts
+                return layout_json(self.DATA_START, 0, 0, 8, n, [2], [1, 0], trailerOk=True)
+            return layout_json(self.DATA_START, 0, 0, 8, n, [], [0], trailerOk=True)
+        x, y = c["pts"]
+        e = 4                  # Small_Two_D: 4 x 4 submatrices; two sections (real, imaginary)
+        # file grid C-order (section, tile_y, tile_x, r | s); imported [tile_x*e + s, tile_y*e + r]
+        return layout_json(self.DATA_START, 0, 0, 8, e, [2, y // e, x // e, e], [2, 4, 1, 3, 0], trailerOk=True)
+
+    def sample(self, c):
+        return ("f", 8, not c["endian"], False)
+
+    def declared(self, c):
+        return 8 * c["pts"][0] * c["pts"][1] * (2 if c["cplx"] else 1)
+
+    def header_bytes(self, c, declared=None):
+        src = bytearray(open(os.path.join(DATA, "delta", "50percCHCL3.jdf"), "rb").read()[: self.DATA_START])
+        dl = self.declared(c) if declared is None else declared
+        src[8] = c["endian"]; src[12] = c["rank"]; src[14] = 1 if c["rank"] == 1 else 12
+        at = [3 if c["cplx"] else 1, 1 if c["rank"] == 2 else 0] + [0] * 6
+        src[24:32] = bytes(at)
+        src[176:208] = struct.pack(">8I", *(c["pts"] + [1] * 6))
+        src[208:240] = struct.pack(">8I", *(c["lo"] + [0] * 6))
+        src[240:272] = struct.pack(">8I", *(c["hi"] + [0] * 6))
+        src[272:336] = struct.pack(">8d", 0.0, 1.0, 0, 0, 0, 0, 0, 0)
+        src[336:400] = struct.pack(">8d", 2.0, 5.0, 0, 0, 0, 0, 0, 0)
+        src[1284:1288] = struct.pack(">I", self.DATA_START)
+        src[1288:1296] = struct.pack(">Q", dl)
+        src[1296:1304] = struct.pack(">Q", self.DATA_START + dl)
+        src[1304:1308] = struct.pack(">I", 0)
+        src[1308:1316] = struct.pack(">Q", self.DATA_START + dl)
+        src[1316:1320] = struct.pack(">I", 0)
+        src[1320:1328] = struct.pack(">Q", self.DATA_START + dl)
+        return bytes(src)
+
+    def write(self, c, d, body):
+        p = os.path.join(d, "syn.jdf")
+        hb = self.header_bytes(c)
+        with open(p, "wb") as f:
+            f.write(hb + bytes(body[len(hb):]))
+        return p
+
+    def expect(self, c, raw):
+        if c["rank"] == 1:
+            v = (raw[:, 0].astype(float) - 1j * raw[:, 1].astype(float)) if c["cplx"] else raw.astype(float)
+            v = v[c["lo"][0]: c["hi"][0] + 1]
+            return v, ["t2"], [np.linspace(0.0, 2.0, len(v))]
+        x, y = c["pts"]
+        r = raw.astype(float).reshape(x, y, 2)
+        v = r[..., 0] - 1j * r[..., 1]
+        v = v[c["lo"][0]: c["hi"][0] + 1, c["lo"][1]: c["hi"][1] + 1]
+        return v, ["t2", "t1"], [np.linspace(0.0, 2.0, v.shape[0]), np.linspace(1.0, 5.0, v.shape[1])]
+
+    def perturbed(self, c, change):
+        if change[0] >= c["rank"]:
+            return None
+        c2 = dict(c, pts=list(c["pts"])); c2["pts"][change[0]] += change[1] * (4 if c["rank"] == 2 else 1)
+        if min(c2["pts"][: c["rank"]]) < (4 if c["rank"] == 2 else 2):
+            return None
+        if any(c2["hi"][k] >= c2["pts"][k] for k in range(c["rank"])):
+            return None
+        return c2
+
+    def rebuild_header(self, c, d, path, change):
+        c2 = self.perturbed(c, change)
+        body = open(path, "rb").read()
+        with open(path, "wb") as f:                     # extents change, the stated data length stays
+            f.write(self.header_bytes(c2, declared=self.declared(c)) + body[self.DATA_START:])
+        return c2
+
+
+KITS = {k.name: k for k in (Prospa(), VnmrJ(), TopSpin(), TNMR(), RS2D(), BES3T(), WinEPR(), SpecMan(), Delta())}
